@@ -108,6 +108,9 @@ typedef struct {
 	uint8_t selfarg;	/* the very first send of sender 0 passes the callback's own address as argument (checksum cb ^ udata == 0) */
 	uint8_t naops;		/* async-operation helpers: this many tpt_msg_async_op_alloc()/tpt_msg_async_op_cb_free() pairs (see aop[]) */
 	struct { uint8_t alloc_on, dst, free_on; } aop[8];	/* thread indexes; 255 = outside the pool (alloc_on), = NULL i.e. 'current thread' (dst) */
+	uint8_t late_by_self;	/* late burst variant: the burst is queued first, then the held thread itself calls tp_shutdown() from its callback */
+	uint8_t pvt_sources;	/* phase: every worker is held in a callback while nthreads pipes registered on the VIRTUAL thread become readable and
+				 * one message is sent to the virtual thread; after the release the message must be delivered (exactly once) */
 	uint8_t late_self;	/* the last message of the late burst sends to its own thread (flags 0 and FORCE) after the stop message was processed */
 	uint8_t nsenders;
 	c05_sender senders[C05_MAX_SENDERS];
@@ -119,6 +122,8 @@ typedef struct {
 	uint32_t nsends;	/* total send ids used (senders first, then burst, then late burst) */
 	uint32_t nlate;		/* how many of them belong to the late burst */
 	uint32_t nrace;		/* how many of them raced with tp_shutdown() */
+	uint32_t npvt_msg;	/* 1 if the pvt_sources phase issued its message (its id is the one right before the late / race / self ids) */
+	uint32_t pvt_pipe_cbs;	/* pipe callbacks seen in that phase */
 	uint32_t naop_done;	/* async operations whose alloc and completion calls were issued */
 	uint32_t nself;		/* self-sends issued by the last late-burst callback (the very last ids) */
 	uint64_t tpt_ptr[17];	/* pointer value of each pool thread object, [16] = pvt */
